@@ -170,32 +170,38 @@ def lockstep(args):
         ints = rnd.random() < 0.75
         inv = simdrv.r8(rnd)
         for pair in PAIRS:
-            a = Runner(pair[0], regs, ov, inv, ints)
-            b = Runner(pair[1], regs, ov, inv, ints)
-            obs = []
-            stuck = 0
-            for _ in range(steps if kind != 'edge' else 12):
-                oa, ob = a.step(), b.step()
-                oa['r2'] = ob['r']
-                oa['same2'] = 1 if (oa['wr'] == ob['wr'] and oa['io'] == ob['io'] and oa['exc'] == ob['exc']) else 0
-                obs.append(oa)
-                if oa['exc'] or oa['r'] != ob['r'] or not oa['same2']:
-                    break
-                # a HALT that can never end (IFF=0 or no interrupts) only repeats itself: 3 boundaries are enough
-                stuck = stuck + 1 if (oa['r'][HALT] and (not oa['r'][IFF] or not ints)) else 0
-                if stuck >= 3:
-                    break
-            # the same run as ONE call of the loop must end in the same state (loop bookkeeping, next_int tracking)
-            whole = Runner(pair[0], regs, ov, inv, ints).step(len(obs)) if obs and not obs[-1]['exc'] else None
-            whole2 = Runner(pair[1], regs, ov, inv, ints).step(len(obs)) if whole else None
-            loop_ok = 1
-            if whole and (whole['r'] != obs[-1]['r'] or whole2['r'] != obs[-1]['r2']):
-                loop_ok = 0
-            out.append({'pair': '+'.join(pair), 'kind': kind, 'ints': 1 if ints else 0, 'frame': FRAME48, 'ia': IA48,
-                        'inv': inv, 'sem': 1, 'tsem': 1 if pair[0] == 'py' else 0, 'r0': regs, 'ov0': ov, 'obs': obs,
-                        'loop_ok': loop_ok,
-                        'whole': None if loop_ok else {'single_call': whole['r'], 'single_call_partner': whole2['r']}})
+            out.append(run_pair(pair, kind, regs, ov, inv, ints, steps if kind != 'edge' else 12))
     return out
+
+
+def run_pair(pair, kind, regs, ov, inv, ints, steps):
+    """One program on one implementation pair, one instruction at a time for at most `steps` boundaries, then once more as a
+    single call of the loop -> trace record for MachineTrace (r0, ov0, inv, ints and steps are the whole input: --replay)."""
+    a = Runner(pair[0], regs, ov, inv, ints)
+    b = Runner(pair[1], regs, ov, inv, ints)
+    obs = []
+    stuck = 0
+    for _ in range(steps):
+        oa, ob = a.step(), b.step()
+        oa['r2'] = ob['r']
+        oa['same2'] = 1 if (oa['wr'] == ob['wr'] and oa['io'] == ob['io'] and oa['exc'] == ob['exc']) else 0
+        obs.append(oa)
+        if oa['exc'] or oa['r'] != ob['r'] or not oa['same2']:
+            break
+        # a HALT that can never end (IFF=0 or no interrupts) only repeats itself: 3 boundaries are enough
+        stuck = stuck + 1 if (oa['r'][HALT] and (not oa['r'][IFF] or not ints)) else 0
+        if stuck >= 3:
+            break
+    # the same run as ONE call of the loop must end in the same state (loop bookkeeping, next_int tracking)
+    whole = Runner(pair[0], regs, ov, inv, ints).step(len(obs)) if obs and not obs[-1]['exc'] else None
+    whole2 = Runner(pair[1], regs, ov, inv, ints).step(len(obs)) if whole else None
+    loop_ok = 1
+    if whole and (whole['r'] != obs[-1]['r'] or whole2['r'] != obs[-1]['r2']):
+        loop_ok = 0
+    return {'pair': '+'.join(pair), 'kind': kind, 'ints': 1 if ints else 0, 'frame': FRAME48, 'ia': IA48,
+            'inv': inv, 'sem': 1, 'tsem': 1 if pair[0] == 'py' else 0, 'r0': regs, 'ov0': ov, 'obs': obs,
+            'loop_ok': loop_ok, 'steps': steps,
+            'whole': None if loop_ok else {'single_call': whole['r'], 'single_call_partner': whole2['r']}}
 
 
 # ================================================================== 128K lock-step (Machine128.tla)
@@ -417,34 +423,39 @@ def lockstep128(args):
         ints = rnd.random() < 0.8
         inv = simdrv.r8(rnd)
         for pair in PAIRS:
-            a = Runner128(pair[0], regs, pov, o7, inv, ints)
-            b = Runner128(pair[1], regs, pov, o7, inv, ints)
-            obs = []
-            stuck = 0
-            for _ in range(steps):
-                oa, ob = a.step(), b.step()
-                oa['r2'] = ob['r']
-                oa['same2'] = 1 if all(oa[f] == ob[f] for f in ('pw', 'io', 'exc', 'o7', 'tr', 'vis3', 'vis0')) else 0
-                if not oa['same2']:
-                    oa['partner'] = {f: ob[f] for f in ('pw', 'io', 'exc', 'o7', 'tr', 'vis3', 'vis0')}
-                obs.append(oa)
-                if oa['exc'] or oa['r'] != ob['r'] or not oa['same2']:
-                    break
-                stuck = stuck + 1 if (oa['r'][HALT] and (not oa['r'][IFF] or not ints)) else 0
-                if stuck >= 3:
-                    break
-            whole = Runner128(pair[0], regs, pov, o7, inv, ints).step(len(obs)) if obs and not obs[-1]['exc'] else None
-            whole2 = Runner128(pair[1], regs, pov, o7, inv, ints).step(len(obs)) if whole else None
-            loop_ok = 1
-            if whole and (whole['r'] != obs[-1]['r'] or whole2['r'] != obs[-1]['r2'] or whole['o7'] != obs[-1]['o7']
-                          or whole2['o7'] != obs[-1]['o7']):
-                loop_ok = 0
-            out.append({'pair': '+'.join(pair), 'kind': '128k-alias' if alias else '128k', 'ints': 1 if ints else 0,
-                        'frame': FRAME128, 'ia': IA128, 'inv': inv, 'sem': 0 if alias else 1,
-                        'tsem': 1 if pair[0] == 'py' else 0, 'r0': regs, 'pov0': pov, 'o70': o7, 'obs': obs,
-                        'loop_ok': loop_ok,
-                        'whole': None if loop_ok else {'single_call': whole['r'], 'single_call_partner': whole2['r']}})
+            out.append(run_pair128(pair, alias, regs, pov, o7, inv, ints, steps))
     return out
+
+
+def run_pair128(pair, alias, regs, pov, o7, inv, ints, steps):
+    """The 128K counterpart of run_pair -> trace record for Machine128 (r0, pov0, o70, inv, ints, steps are the whole input)."""
+    a = Runner128(pair[0], regs, pov, o7, inv, ints)
+    b = Runner128(pair[1], regs, pov, o7, inv, ints)
+    obs = []
+    stuck = 0
+    for _ in range(steps):
+        oa, ob = a.step(), b.step()
+        oa['r2'] = ob['r']
+        oa['same2'] = 1 if all(oa[f] == ob[f] for f in ('pw', 'io', 'exc', 'o7', 'tr', 'vis3', 'vis0')) else 0
+        if not oa['same2']:
+            oa['partner'] = {f: ob[f] for f in ('pw', 'io', 'exc', 'o7', 'tr', 'vis3', 'vis0')}
+        obs.append(oa)
+        if oa['exc'] or oa['r'] != ob['r'] or not oa['same2']:
+            break
+        stuck = stuck + 1 if (oa['r'][HALT] and (not oa['r'][IFF] or not ints)) else 0
+        if stuck >= 3:
+            break
+    whole = Runner128(pair[0], regs, pov, o7, inv, ints).step(len(obs)) if obs and not obs[-1]['exc'] else None
+    whole2 = Runner128(pair[1], regs, pov, o7, inv, ints).step(len(obs)) if whole else None
+    loop_ok = 1
+    if whole and (whole['r'] != obs[-1]['r'] or whole2['r'] != obs[-1]['r2'] or whole['o7'] != obs[-1]['o7']
+                  or whole2['o7'] != obs[-1]['o7']):
+        loop_ok = 0
+    return {'pair': '+'.join(pair), 'kind': '128k-alias' if alias else '128k', 'ints': 1 if ints else 0,
+            'frame': FRAME128, 'ia': IA128, 'inv': inv, 'sem': 0 if alias else 1,
+            'tsem': 1 if pair[0] == 'py' else 0, 'r0': regs, 'pov0': pov, 'o70': o7, 'obs': obs,
+            'loop_ok': loop_ok, 'steps': steps,
+            'whole': None if loop_ok else {'single_call': whole['r'], 'single_call_partner': whole2['r']}}
 
 
 # ================================================================== one instruction + frame interrupt (C08)
@@ -481,13 +492,18 @@ def int_cases(args):
         ov = [[a, v] for a, v in d.items()]
         inv = simdrv.r8(rnd)
         for pair in PAIRS:
-            a = Runner(pair[0], regs, ov, inv, True)
-            b = Runner(pair[1], regs, ov, inv, True)
-            oa, ob = a.step(), b.step()
-            oa['r2'] = ob['r']
-            oa['same2'] = 1 if (oa['wr'] == ob['wr'] and oa['io'] == ob['io'] and oa['exc'] == ob['exc']) else 0
-            out.append({'pair': '+'.join(pair), 'kind': 'int-push', 'ints': 1, 'frame': FRAME48, 'ia': IA48, 'inv': inv, 'sem': 0,
-                        'tsem': 1 if pair[0] == 'py' else 0, 'c08': 1, 'r0': list(regs), 'ov0': ov, 'obs': [oa], 'loop_ok': 1,
-                        'whole': None, 'slot': sl[i][1], 'sp': regs[SP],
-                        'accepted': 1 if (oa['r'][IFF] == 0 and oa['r'][SP] == (regs[SP] - 2) % 65536) else 0})
+            out.append(int_push(pair, regs, ov, inv, sl[i][1]))
     return out
+
+
+def int_push(pair, regs, ov, inv, slot):
+    """One boundary (instruction + accepted frame interrupt) on one implementation pair (regs, ov, inv are the whole input)."""
+    a = Runner(pair[0], regs, ov, inv, True)
+    b = Runner(pair[1], regs, ov, inv, True)
+    oa, ob = a.step(), b.step()
+    oa['r2'] = ob['r']
+    oa['same2'] = 1 if (oa['wr'] == ob['wr'] and oa['io'] == ob['io'] and oa['exc'] == ob['exc']) else 0
+    return {'pair': '+'.join(pair), 'kind': 'int-push', 'ints': 1, 'frame': FRAME48, 'ia': IA48, 'inv': inv, 'sem': 0,
+            'tsem': 1 if pair[0] == 'py' else 0, 'c08': 1, 'r0': list(regs), 'ov0': ov, 'obs': [oa], 'loop_ok': 1,
+            'whole': None, 'slot': slot, 'sp': regs[SP],
+            'accepted': 1 if (oa['r'][IFF] == 0 and oa['r'][SP] == (regs[SP] - 2) % 65536) else 0}
